@@ -2,7 +2,7 @@
 # usage: seed_sweep.sh  — every seeded change against the check of the property it targets; one line per seed
 cd /verif
 : > seeded/sweep.log
-for d in seeded/C*-seed*; do
+for d in seeded/C*-seed* seeded/C*-r4*; do
   id=$(basename $d)
   P=${id%%-*}
   out=$(sh tools/seed_run.sh /verif/$d/patch.diff $P 2>&1 | grep -E "^(VIOLATION|OK|INFRA|PATCH)" | head -1 | cut -c1-140)
